@@ -184,7 +184,7 @@ func run(c nlhist.Case) (sig string, err error, st stats) {
 func TestC12_SharingDense(t *testing.T) {
 	r := evid.Get(id)
 	evid.Finish(t, r)
-	evid.Checks(60)
+	evid.Checks(90)
 	rapid.Check(t, func(t *rapid.T) {
 		x := rapid.IntRange(0, 2).Draw(t, "x")
 		y := (x + 1 + rapid.IntRange(0, 1).Draw(t, "y")) % 3
@@ -196,10 +196,18 @@ func TestC12_SharingDense(t *testing.T) {
 		if rapid.Bool().Draw(t, "second") {
 			local.Tags = append(local.Tags, y)
 		}
-		c := nlhist.Case{Files: []nodelite.FileSpec{cached, local}}
+		// a second cached file that also contains x (a chunk with three owners)
+		cached2 := nodelite.FileSpec{Tags: []int{x}, Tail: rapid.SampledFrom([]int{9, 4096}).Draw(t, "tail2"), Salt: 0}
+		c := nlhist.Case{Files: []nodelite.FileSpec{cached, local, cached2}}
 		opGen := rapid.Custom(func(t *rapid.T) nlhist.Op {
-			k := rapid.SampledFrom([]string{"fetchA", "fetchA", "uploadB", "uploadB", "pinB", "unpinB", "readA", "gc", "restart", "deleteB"}).Draw(t, "k")
+			k := rapid.SampledFrom([]string{"fetchA", "fetchA", "fetchC", "fetchC", "uploadB", "uploadB", "pinB", "unpinB", "readA", "gc", "gc", "restart", "deleteB", "deleteA", "deleteC"}).Draw(t, "k")
 			switch k {
+			case "deleteA":
+				return nlhist.Op{K: "delete", F: 0}
+			case "deleteC":
+				return nlhist.Op{K: "delete", F: 2}
+			case "fetchC":
+				return nlhist.Op{K: "fetch", F: 2}
 			case "fetchA":
 				return nlhist.Op{K: "fetch", F: 0, Arg: rapid.SampledFrom([]int{0, 0, 1, 3}).Draw(t, "mask")}
 			case "uploadB":
@@ -215,9 +223,15 @@ func TestC12_SharingDense(t *testing.T) {
 			case "deleteB":
 				return nlhist.Op{K: "delete", F: 1}
 			}
-			return nlhist.Op{K: "gc", Arg: rapid.SampledFrom([]int{1, 2, 4}).Draw(t, "cap")}
+			return nlhist.Op{K: "gc", Arg: rapid.SampledFrom([]int{1, 2, 4, 6, 9}).Draw(t, "cap")}
 		})
-		c.Ops = append(rapid.SliceOfN(opGen, 2, 10).Draw(t, "ops"), nlhist.Op{K: "gc", Arg: 1})
+		// the chunk counts as "stored by local upload" only when the upload comes before the
+		// downloads that share it, so that order is drawn with probability 1/2 up front
+		if rapid.Bool().Draw(t, "uploadFirst") {
+			c.Ops = append(c.Ops, nlhist.Op{K: "upload", F: 1})
+		}
+		c.Ops = append(c.Ops, rapid.SliceOfN(opGen, 2, 12).Draw(t, "ops")...)
+		c.Ops = append(c.Ops, nlhist.Op{K: "gc", Arg: 1})
 		sig, err, st := run(c)
 		if err != nil {
 			t.Fatalf("%s", evid.Violation(id, sig, fmt.Sprintf("%v\ncase=%+v", err, c)))
